@@ -122,7 +122,10 @@ class Keeper:
             return (200, st.get("ctype", "application/json; charset=utf-8"), st["body"])
         if st["kind"] == "reset":
             return (None, "", b"")
-        return (200, "application/json; charset=utf-8", status_json(st["doc"]).encode())
+        body = status_json(st["doc"]).encode()
+        if st.get("chunked"):
+            return (200, "application/json; charset=utf-8", body, False, None, [max(1, len(body) // 3), max(1, len(body) // 3)])
+        return (200, "application/json; charset=utf-8", body)
 
     def _key(self, req):
         plan = self.current or {}
@@ -148,6 +151,8 @@ class Keeper:
         if a["kind"] == "reset":
             return (None, "", b"")
         body = json.dumps({"authorizationScheme": "Azure-HMAC-SHA256", "guid": a["guid"], "issued": "2024-01-01T00:00:00Z", "key": a["key"]})
+        if a.get("chunked"):
+            return (200, "application/json; charset=utf-8", body.encode(), False, None, [20, 40])
         if a["kind"] == "truncated":
             # the whole document, announced 64 bytes longer than it is, then the connection is dropped
             return (200, "application/json; charset=utf-8", body.encode(), True, len(body.encode()) + 64)
@@ -186,22 +191,22 @@ class Keeper:
                         self.lock.acquire()
         return True
 
-    def step(self, plan, kick=False):
+    def step(self, plan, kick=False, timeout=8.0):
         """release one iteration with `plan`, wait for it to finish, return the agent's state line"""
-        if not self.wait_at_gate(kick=kick):
+        if not self.wait_at_gate(timeout=timeout, kick=kick):
             return None
         with self.lock:
             before = self.served
             self.release.append(plan)
             self.lock.notify_all()
             # the waiting status request must take this plan before "at the gate again" can mean the NEXT iteration
-            end = time.time() + 8.0
+            end = time.time() + timeout
             while self.served == before:
                 left = end - time.time()
                 if left <= 0:
                     return None
                 self.lock.wait(timeout=min(left, 0.1))
-        if not self.wait_at_gate(timeout=8.0, kick=kick):
+        if not self.wait_at_gate(timeout=timeout, kick=kick):
             return None
         self.tr("state-read")
         line = self.ctl(self.state_op)
